@@ -237,6 +237,11 @@ CycleTo(pat, n) == [i \in 1..n |-> pat[((i - 1) % Len(pat)) + 1]]
 BigRows(rows, n, b) == [i \in 1..n |-> rows[(((i - 1) \div b) % Len(rows)) + 1]]
 BigT(t, n, b) == IF NR(t) = 0 THEN t ELSE Tbl(t.cols, BigRows(t.rows, n, b))
 CopiesT(t, k) == BigT(t, k * NR(t), 1)
+\* the constructor call itself is handed the scaled-up rows / records (only the pattern rows that occur count: a record of the pattern
+\* that is never laid out contributes no column)
+BigSeed(s, n, b) == CASE s.kind = "rows" -> [s EXCEPT !.rows = IF s.rows = <<>> THEN <<>> ELSE BigRows(s.rows, n, b)]
+                      [] s.kind = "recs" -> [s EXCEPT !.recs = IF s.recs = <<>> THEN <<>> ELSE BigRows(s.recs, n, b)]
+NewBigT(s, n, b) == Construct(BigSeed(s, n, b))
 \* d[c] = pattern cycled to the length of the table (an empty pattern is the empty list)
 CycArg(pat, n) == <<"l", IF pat = <<>> THEN <<>> ELSE CycleTo(pat, n)>>
 
